@@ -782,6 +782,10 @@ where
         // If not storing session state, clear QoS2 states and release publish-related packet IDs
         if !self.need_store {
             self.qos2_publish_handled.clear();
+            // The session ends with this connection: nothing is left to retransmit. (The store can
+            // be non-empty here when a persistent session was resumed without a Session Expiry
+            // Interval.)
+            self.store.clear();
 
             // Release packet IDs for PUBACK
             for packet_id in self.pid_puback.drain() {
